@@ -662,6 +662,16 @@ fn run_query(r: &mut Runner, rt: &tokio::runtime::Runtime, ses: &Session, z: &Zo
             r.rep.count("e2e/dontcare/optout-ent-without-nsec3");
             return;
         }
+        // same corner once more, the source of synthesis: wildcard NODATA whose `*.<closest encloser>` is
+        // an empty non-terminal that exists only through insecure delegations below it has no NSEC3 RR
+        // under Opt-Out (§7.1), so the matching record §7.2.5/§8.7 ask for cannot be attached by any server
+        if p.opt_out && e.kind == Kind::WildcardNodata {
+            let ce = e.first_step().closest_encloser.clone().unwrap_or_default();
+            if !denial::nsec3_names(z, true).contains(&refzone::fold(&refzone::child(b"*", &ce))) {
+                r.rep.count("e2e/dontcare/optout-wildcard-ent-without-nsec3");
+                return;
+            }
+        }
     }
     r.rep.count("e2e/judged_complete");
     r.rep.count(&format!("e2e/judged_complete/{}", e.kind.as_str()));
